@@ -682,10 +682,10 @@ pub fn run(run: &mut Run) {
     run.enumerate("corpus", corpus, true, |c: &Case, r: &mut Rec| check_with(c, r, e1));
     let faults = fault_cases(run.seed, t.pick(4, 24));
     run.enumerate("fault-enumeration", faults, true, |c: &Case, r: &mut Rec| check_with(c, r, e1));
-    run.explore("mutated-valid-files", t.pick(12_000, 3_000_000), mutated_strategy, |c, r| check_with(c, r, e1));
-    run.explore("szx-chunk-structure", t.pick(8_000, 3_000_000), szx_chunks_strategy, |c, r| check_with(c, r, e1));
+    run.explore("mutated-valid-files", t.pick(12_000, 600_000), mutated_strategy, |c, r| check_with(c, r, e1));
+    run.explore("szx-chunk-structure", t.pick(8_000, 400_000), szx_chunks_strategy, |c, r| check_with(c, r, e1));
     run.explore("vtx-structure", t.pick(30_000, 2_000_000), vtx_struct_strategy, |c, r| check_with(c, r, e1));
-    run.explore("random-bytes", t.pick(6_000, 400_000), random_strategy, |c, r| check_with(c, r, e1));
+    run.explore("random-bytes", t.pick(6_000, 100_000), random_strategy, |c, r| check_with(c, r, e1));
     let tolerated: u64 = run
         .phases
         .iter()
